@@ -60,14 +60,16 @@ type xSub struct {
 }
 
 type xWorld struct {
-	v      reactive.Variable[int]
-	subs   []*xSub
-	toks   []string
-	resets []func()
-	in     reactive.Variable[int]
-	dv     reactive.DerivedVariable[int]
-	undo   func()
-	viol   []string // violations seen from inside callbacks: "oracle: detail"
+	v        reactive.Variable[int]
+	subs     []*xSub
+	toks     []string
+	resets   []func()
+	in       reactive.Variable[int]
+	dv       reactive.DerivedVariable[int]
+	undo     func()
+	detached bool
+	dvBefore int
+	viol     []string // violations seen from inside callbacks: "oracle: detail"
 }
 
 func (w *xWorld) violate(oracle, detail string) { w.viol = append(w.viol, oracle+"\x00"+detail) }
@@ -191,6 +193,27 @@ func (w *xWorld) oracle(r *hx.Run, op string, before, after int) {
 		r.Fail(p[0], fmt.Sprintf("after %q: %s", op, p[1]), map[string]string{"oracle": p[0], "op": opk, "mode": "seqx"})
 	}
 	w.viol = nil
+	direct := func(oracle, detail string) {
+		r.Fail(oracle, fmt.Sprintf("after %q: %s", op, detail), map[string]string{"oracle": oracle, "op": opk, "mode": "seqx"})
+	}
+	switch opk {
+	case "reset":
+		if after != 0 {
+			direct("toggle-reset", fmt.Sprintf("the reset function of ToggleValue left the value at %d, not at the zero value", after))
+		}
+	case "toggle", "init", "set":
+		if want := atoi(strings.Fields(op)[1]); after != want {
+			direct("writer", fmt.Sprintf("value is %d, not %d", after, want))
+		}
+	case "derive", "feed":
+		if w.detached {
+			if after != before {
+				direct("derive-teardown", fmt.Sprintf("the value followed the source (%d -> %d) after DeriveValueFrom's teardown had been called", before, after))
+			}
+		} else if w.dv != nil && (opk == "derive" || w.dvBefore != w.dv.Get()) && after != w.dv.Get() {
+			direct("derive-follows", fmt.Sprintf("source is %d but the deriving variable is %d", w.dv.Get(), after))
+		}
+	}
 	for i, s := range w.subs {
 		switch s.kind {
 		case "once":
@@ -336,6 +359,7 @@ func (w *xWorld) exec1(f []string, num func(int) int) string {
 		if w.dv == nil {
 			return "bad-op"
 		}
+		w.dvBefore = w.dv.Get()
 		w.in.Set(num(1))
 
 		return strconv.Itoa(w.dv.Get())
@@ -344,6 +368,7 @@ func (w *xWorld) exec1(f []string, num func(int) int) string {
 			return "bad-op"
 		}
 		w.undo()
+		w.detached = true
 
 		return "ok"
 	case "read":
